@@ -443,6 +443,25 @@ func (r *rewriter) rewrite() bool {
 	if r.needV {
 		astutil.AddNamedImport(r.fset, r.file, "vsched_", vschedPath)
 	}
+	if r.changed {
+		// a call replacement may have removed the last use of an import
+		for _, imp := range r.file.Imports {
+			if imp.Name != nil && (imp.Name.Name == "_" || imp.Name.Name == ".") {
+				continue
+			}
+			p, _ := strconv.Unquote(imp.Path.Value)
+			if p == vschedPath || p == vsyncPath || p == vatomicPath {
+				continue
+			}
+			if !astutil.UsesImport(r.file, p) {
+				if imp.Name != nil {
+					astutil.DeleteNamedImport(r.fset, r.file, imp.Name.Name, p)
+				} else {
+					astutil.DeleteImport(r.fset, r.file, p)
+				}
+			}
+		}
+	}
 	return r.changed
 }
 
